@@ -273,12 +273,12 @@ func c06Verdict(w *iso.Worker, c c06Case) error {
 		c06Excluded++
 		return nil
 	}
-	resp, outcome, text := w.Call("c06", c, c06Watchdog)
+	resp, outcome, text := callTwice(w, "c06", c, c06Watchdog)
 	switch {
 	case outcome == iso.Died:
 		return fmt.Errorf("%s input (%s, %d bytes) killed the process: %s", c.Entry, c.What, len(c.Data), text)
 	case outcome == iso.TimedOut:
-		return fmt.Errorf("%s input (%s, %d bytes) did not terminate within %v: %s", c.Entry, c.What, len(c.Data), c06Watchdog, text)
+		return fmt.Errorf("%s input (%s, %d bytes) did not terminate within %v, nor within %v in a second attempt: %s", c.Entry, c.What, len(c.Data), c06Watchdog, 3*c06Watchdog, text)
 	case resp.Panic != "":
 		return fmt.Errorf("%s input (%s, %d bytes) panicked: %s", c.Entry, c.What, len(c.Data), resp.Panic)
 	case resp.Err != "":
@@ -745,6 +745,7 @@ func TestC06(t *testing.T) {
 		}
 	})
 	col.Extra["worker_spawns"] = w.Spawns
+	col.Extra["answers_only_at_second_attempt"] = isoSlowRetries
 	col.Excluded = c06Excluded
 }
 
